@@ -195,7 +195,8 @@ def run(ctx, out):
             comp = ((only_mem or only_spq or [("", "", "", "#verdict")])[0][3]).rsplit("#", 1)[-1].replace("ConstraintComponent", "")
             sig = "C07:results-differ:%s:%s" % ("missing-in-sparql-mode" if only_mem else "extra-in-sparql-mode", comp)
             falsy = set(wire.tkey(l) for l in set(dg.objects()) | set(sg.objects(None, SH.targetNode)) if isinstance(l, Literal) and not bool(l))
-            if falsy_literal_subjects(sg, dg) and all(k[0] in falsy for k in only_mem + only_spq):
+            # the falsy literal is the focus node itself, or an intermediate node of a complex path (result path = blank node)
+            if falsy_literal_subjects(sg, dg) and all(k[0] in falsy or str(k[2]).startswith("B:") for k in only_mem + only_spq):
                 sig = "C07:rdflib-falsy-literal-path-subject"
             out.b_fail.append({"signature": sig,
                                "case": case, "only_in_memory": only_mem, "only_sparql_mode": only_spq})
